@@ -87,8 +87,20 @@ def reporterSpec (st : RSpec) (line ans : String) : RSpec × String :=
   | ["log"] =>
     let expect := s!"reported=[{showNats st.r.2}]"
     (st, if ans.startsWith expect then "holds" else s!"fails reporter log {ans}, contract says {expect}")
-  | ["conc", _, _] =>
-    (st, if ans.startsWith "maxconc=1 " then "holds" else s!"fails reporter invoked concurrently: {ans}")
+  | ["conc", g, m] =>
+    -- serialised, and (contract: once the reporter returned an error it is not called again) the
+    -- number of reporter calls is min(abortAt + 1, g*m)
+    let reported := ((ans.splitOn "reported=").getD 1 "").toNat?
+    let total := (g.toNat?.getD 0) * (m.toNat?.getD 0)
+    let bound := match st.abortAt with
+      | some k => if k < total then k + 1 else total
+      | none => total
+    (st, if !ans.startsWith "maxconc=1 " then s!"fails reporter invoked concurrently: {ans}"
+         else match reported with
+           | some n => if n == bound then "holds"
+                       else if n > bound then s!"fails reporter-called-after-abort calls={n} contract={bound}"
+                       else s!"fails reporter-calls-missing calls={n} contract={bound}"
+           | none => s!"fails unparsable conc answer {ans}")
   | _ => (st, "skip")
 
 def reporter : Engine :=
